@@ -37,6 +37,18 @@ def run(tier, seed):
         # 2 goroutines x 2 calls is out of reach exhaustively (measured, see poolsfam.model_sim): random behaviours of larger configurations
         poolsfam.model_sim(check, "2g-2calls-6obj", "g1, g2", 2, False, 6, 6000)
         poolsfam.model_sim(check, "3g-2calls-7obj-panic", "g1, g2, g3", 2, True, 7, 6000)
+    # 1c. the default options behind their mutex (Options.tla): race free as written; the pre-fix reader and the shape of a seeded
+    #     unlocked fast path must both make TLC report NoRace (the model keeps its bite)
+    OPT_CFG = "SPECIFICATION Spec\nCONSTANTS\n  Setters = {s1, s2}\n  Readers = {r1, r2}\n  ReaderLocks = %s\n  SetterFastPath = %s\nINVARIANTS NoRace MutexOK CopyIsSomeValue\nCHECK_DEADLOCK FALSE\n"
+    for label, rl, fp, expect in (("options", "TRUE", "FALSE", None), ("options-reader-without-lock", "FALSE", "FALSE", "NoRace"), ("options-setter-fast-path", "TRUE", "TRUE", "NoRace")):
+        r = common.tlc(common.workdir("C05-" + label), "Options", OPT_CFG % (rl, fp), timeout=600, workers=2, heap="1g")
+        if r["timeout"] or r["error"] or r["violated"] != expect:
+            raise Inconclusive("Options.tla (%s): expected %s, got %s\n%s" % (label, expect, r["violated"] or r["error"] or "timeout", r["out"][-800:]))
+        if expect is None:
+            check.add_tlc(r)
+            check.coverage.setdefault("exhaustive_models", {})["options-2setters-2readers"] = dict(distinct_states=r["distinct"], transitions=r["states"], depth=r["depth"])
+        else:
+            check.coverage.setdefault("model_counterexamples_reproduced", []).append(label + ": NoRace violated, as expected")
     # 2. independence + ownership on real executions (outcomes vs alone/fresh references, pool monitor on the merged stream)
     gs = "2,8,32" if quick else "2,3,4,8,16,32,64"   # measured: one 64-goroutine x 150-call chunk keeps Trace_Pools busy for > 25 min
     n = 20 if quick else 50
